@@ -14,8 +14,10 @@ RENAMES = {'plain': {}, 'hexlike': {'A': 'AD', 'B': 'C', 'C': 'H', 'X': 'F'}}
 def ren(tok, m):
     if m and tok and all(ch in 'ABCX' for ch in tok):
         return ''.join(m[ch] for ch in tok)
+    if m and tok == 'ab':
+        return (m['A'] + m['B']).lower()
     return tok
-CONST = {'AB': 101, 'BC': 102, 'ABC': 103, 'XAB': 104}
+CONST = {'AB': 101, 'BC': 102, 'ABC': 103, 'XAB': 104, 'ab': 105}
 PRE = {'NoDefs': ([], []), 'PreDefs': ([('BC', '7')], ['XAB=BC + 1']), 'PreNull': ([('BC', None)], [])}
 
 
